@@ -204,12 +204,19 @@ def _f_merge(case, ref, est):
 
 @reg("pandas_bridge conversions")
 def _f_df(case, ref, est):
+    if ref.mode == "pq" and case["misc"].get("uneven"):
+        # -q describes the same rotation as q: stored quaternions with negative w are common in recorded data
+        sg = np.where(np.arange(ref.n) % 2 == 0, -1.0, 1.0)
+        ref = trajgen.Real(ref.P, ref.Rs(), "pq", ref.T, Q=ref.Q * sg[:, None])
     ro = ref.build(case["ref"]["pre"], timed=case["misc"]["flag"])
     rs = _mk_results(case, ref, est)
+    yield [ro, rs[0]]
     df = pandas_bridge.trajectory_to_df(ro)
-    yield [ro, rs[0], df]
+    snap_df = df.copy(deep=True)
     pandas_bridge.trajectory_to_df(ro)
     pandas_bridge.df_to_trajectory(df)
+    if not df.equals(snap_df):
+        raise Mismatch("df_to_trajectory modified the DataFrame it was given", observed="argument_modified", function="pandas_bridge.df_to_trajectory")
     pandas_bridge.result_to_df(rs[0])
     pandas_bridge.trajectory_stats_to_df(ro)
 
